@@ -32,4 +32,4 @@ def run(tier, seed):
     from bounded import reftest_bounded as rb
     from bounded.core import attach
     attach(ctx, rb.run(('C10',), tier, seed))
-    return finish(ctx, 'proof')
+    return finish(ctx, 'other')
